@@ -120,6 +120,18 @@ class ForLoopPulseTemplate(LoopPulseTemplate, MeasurementDefiner, ParameterConst
             return sympy.Dummy(self._loop_index)
         return loop_index
 
+    def _step_count(self) -> sympy.Expr:
+        """len(range(start, stop, step)) as an expression. The range is integer valued (ParametrizedRange.to_range), so
+        ceiling((stop - start) / step) == floor((stop - start + step - sign(step)/2) / step). The second form is used
+        because it stays at least 1/(2*|step|) away from every integer: a numeric evaluation in floating point
+        (sympy distributes the division over the difference, 5/3 - start/3) cannot end up on the wrong side of an
+        integer, while ceiling((stop - start) / step) was one too large for ranges that are empty or end exactly on a
+        step (1.6666666666666667 - 1.6666666666666665 > 0)."""
+        start = self._loop_range.start.sympified_expression
+        stop = self._loop_range.stop.sympified_expression
+        step = self._loop_range.step.sympified_expression
+        return sympy.floor((stop - start + step - sympy.sign(step) / 2) / step)
+
     @cached_property
     def duration(self) -> ExpressionScalar:
         step_size = self._loop_range.step.sympified_expression
@@ -130,7 +142,7 @@ class ForLoopPulseTemplate(LoopPulseTemplate, MeasurementDefiner, ParameterConst
         body_duration = self.body.duration.sympified_expression.subs({loop_index: self._loop_range.start.sympified_expression + sum_index*step_size})
 
         # number of sum contributions
-        step_count = sympy.ceiling((self._loop_range.stop.sympified_expression-self._loop_range.start.sympified_expression) / step_size)
+        step_count = self._step_count()
         sum_start = 0
         sum_stop = sum_start + (sympy.functions.Max(step_count, 1) - 1)
 
@@ -225,7 +237,7 @@ class ForLoopPulseTemplate(LoopPulseTemplate, MeasurementDefiner, ParameterConst
         }
 
         # number of sum contributions
-        step_count = sympy.ceiling((self._loop_range.stop.sympified_expression-self._loop_range.start.sympified_expression) / step_size)
+        step_count = self._step_count()
         sum_start = 0
         sum_stop = sum_start + (sympy.functions.Max(step_count, 1) - 1)
 
